@@ -290,8 +290,11 @@ def validate_batch(
     heap: str = "3g",
     deque: bool = False,
     defs: str | None = None,
+    common: dict | None = None,
 ):
     """Validate recorded traces with spec/<module>.tla (a Trace* module).
+
+    With `common` the batch file is {"common": ..., "cases": [...]} (tables shared by all cases).
 
     The module reads the batch with JsonDeserialize(IOEnv.TRACE_FILE) and prints
     one or more lines  <<"V", tid, "ACCEPT"|"REJECT"|"SKIP", clause, detail>> per
@@ -316,7 +319,7 @@ def validate_batch(
         ix, chunk = ix_chunk
         d = newdir(f"batch{ix}")
         f = d / "traces.json"
-        f.write_text(json.dumps(chunk))
+        f.write_text(json.dumps(chunk if common is None else {"common": common, "cases": chunk}))
         r = tlc(module, cfg, env={"TRACE_FILE": str(f)}, workers=1, timeout=timeout, heap=heap, deque=deque, defs=defs, tag=f"{module}.b{ix}")
         return ix, chunk, r
 
